@@ -186,7 +186,7 @@ def op_call(name, P, o):
     alpha = [1, 0, 0.5, r[1]][int(r[0] * 4)]
     T = {
         "overlap": lambda: overlap_integral(b),
-        "overlap_screen": lambda: overlap_integral(b, tol_screen=1e-3),
+        "overlap_screen": lambda: overlap_integral(b, tol_screen=[0.5, 1e-1, 1e-3][int(r[0] * 3)]),
         "overlap_T": lambda: overlap_integral(b, transform=P["T"]),
         "overlap_asym": lambda: overlap_integral_asymmetric(b, P["basis2"]),
         "kinetic": lambda: kinetic_energy_integral(b),
@@ -356,7 +356,7 @@ def run_history(case, pool, mode, viols, pass_name):
             def probes():
                 b_ = list(pool["basis"])
                 out_ = [cm.call(overlap_integral, b_), cm.call(_kin2, b_), cm.call(_eb, b_, np.array(pool["pts"])),
-                        cm.call(overlap_integral, b_, tol_screen=1e-1), cm.call(overlap_integral, b_, tol_screen=1e-6)]
+                        cm.call(overlap_integral, b_, tol_screen=0.5), cm.call(overlap_integral, b_, tol_screen=1e-1), cm.call(overlap_integral, b_, tol_screen=1e-6)]
                 for sh_ in b_:
                     out_.append(np.array(sh_.angmom_components_cart))
                     out_.append(np.array(sh_.norm_prim_cart))
@@ -371,7 +371,7 @@ def run_history(case, pool, mode, viols, pass_name):
             bl_ = list(pool["basis"])
             for ia_ in range(len(bl_)):
                 for ib_ in range(len(bl_)):
-                    for tol_ in (None, 1e-1, 1e-6):  # blocks handed out by the public kernel, screened or not
+                    for tol_ in (None, 0.5, 1e-1, 1e-6):  # blocks handed out by the public kernel, screened or not
                         blk_ = cm.call(_Ov.construct_array_contraction, bl_[ia_], bl_[ib_], tol_screen=tol_)
                         if isinstance(blk_, np.ndarray):
                             handed.append(blk_)
